@@ -66,8 +66,7 @@ _prop('C02',
       rules=[rules_text.rule_ta_escape, rules_text.rule_dumps_encoder,
              rules_text.rule_ta_lossy_json, rules_text.rule_sb_jsonpaths,
              rules_text.rule_ag_json_writer],
-      minima={'TA-ESCAPE': 24, 'TA-ENCODER': 5, 'TA-LOSSY': 3,
-              'SB-JSONPATHS': 12, 'AG-JSONKEYS': 25},
+      minima={'TA-ESCAPE': 25, 'TA-ENCODER': 4, 'TA-LOSSY': 2, 'SB-JSONPATHS': 12, 'AG-JSONKEYS': 24, 'AX-CTOR': 3},
       rule_texts=rules_text.RULE_TEXT,
       trusted=['json.dumps escapes every string it is given and emits valid '
                'JSON; repr/str of a Python float is the shortest string that '
@@ -127,10 +126,186 @@ _prop('C01',
       rules=[rules_hdf5.rule_ag_h5keys, rules_hdf5.rule_ag_reg,
              rules_subset.rule_ta_codec, rules_hdf5.rule_h5_reader_axes,
              rules_hdf5.rule_h5_fwd],
-      minima={'AG-H5KEYS': 18, 'AG-REG': 10, 'AG-SENT': 7, 'TA-CODEC': 12,
-              'AX-MATOP': 5, 'AX-FWD': 4},
+      minima={'AG-H5KEYS': 16, 'AG-REG': 9, 'AG-SENT': 6, 'TA-CODEC': 12, 'AX-MATOP': 4, 'AX-FWD': 3, 'AX-OWNER': 1, 'AX-SHAPE': 1, 'AX-CTOR': 6},
       rule_texts=dict(rules_hdf5.RULE_TEXT,
                       **{'TA-CODEC': rules_subset.RULE_TEXT['TA-CODEC']}),
       trusted=['h5py: vlen-str datasets read as bytes, str attributes '
                'stored/read as UTF-8'],
       assumptions=[])
+
+from . import rules_effects  # noqa: E402
+
+_prop('C07',
+      rules=[rules_effects.rule_ef_bind, rules_effects.rule_ef_new,
+             rules_effects.rule_ef_fresh, rules_effects.rule_ef_nomut],
+      minima={},
+      rule_texts=rules_effects.RULE_TEXT,
+      trusted=['scipy: tocsr/tocsc/asformat may return self; copy, astype '
+               '(default), transpose(copy=True) and fancy indexing allocate; '
+               'numpy basic slicing returns views'],
+      assumptions=['user callbacks that mutate what they are handed are '
+                   'outside the analysis'])
+
+from functools import partial  # noqa: E402
+from . import rules_axis, rules_table  # noqa: E402
+
+
+def ax(funcs, kinds=None):
+    def rule(repo, col):
+        rules_axis.emit(col, repo, funcs=set(funcs), kinds=kinds)
+    rule.__name__ = 'axis_sinks'
+    return rule
+
+
+def _texts(*mods, **extra):
+    out = {}
+    for m in mods:
+        out.update(m.RULE_TEXT)
+    out.update(extra)
+    return out
+
+
+ALL_TEXT = _texts(rules_err, rules_validator, rules_text, rules_subset,
+                  rules_hdf5, rules_canon, rules_effects, rules_axis,
+                  rules_table)
+SCIPY_TRUST = ('scipy: csr is row-major / csc column-major, sum(axis=0) is '
+               'per column, hstack grows columns, conversions preserve '
+               'values and may return self, astype copies by default')
+
+_prop('C05',
+      rules=[rules_table.rule_or_reindex,
+             ax(['Table.filter', 'Table.update_ids', 'Table.__init__',
+                 'Table._index_ids', 'Table._cast_metadata',
+                 'Table.partition', 'Table.length', 'Table._iter_samp',
+                 'Table._iter_obs', 'Table.is_empty', 'Table.index',
+                 'Table.exists', 'Table.metadata', 'Table.data',
+                 'Table.get_value_by_ids', 'Table.iter', 'Table.iter_data',
+                 'Table.iter_pairwise', 'Table.nonzero', 'Table.ids',
+                 'Table._index']),
+             rules_axis.rule_axis_primitives,
+             rules_table.rule_filter_kernel, rules_table.rule_or_errcheck,
+             rules_err.rule_ag_errkinds, rules_table.rule_or_cast,
+             rules_effects.rule_ef_nomut, rules_effects.rule_ef_new,
+             rules_canon.rule_invariant_g,
+             rules_canon.rule_or_canon_consumers],
+      minima={'OR-REINDEX': 9, 'AX-STORE': 20, 'AX-RET': 14, 'AX-SHAPE': 16, 'AX-OWNER': 4, 'AX-MATOP': 2, 'AX-IDAPI': 1, 'AX-KERNEL': 1, 'AX-CTOR': 4, 'AX-PRIM': 1, 'SB-FILTERPATHS': 4, 'OR-VALIDATE-FIRST': 1, 'SB-PREDICATE': 1, 'SB-MASK': 1, 'OR-ERRCHECK': 8, 'AG-ERRKINDS': 17, 'OR-CAST': 2, 'EF-NOMUT': 1, 'EF-NEW': 56, 'EF-KROOT': 1, 'OR-CANON': 15, 'EF-FRESH': 1},
+      rule_texts=ALL_TEXT, trusted=[SCIPY_TRUST],
+      assumptions=['index arithmetic inside _remove_rows_csr and scipy '
+                   'conversions are not decided'])
+
+_prop('C06',
+      rules=[rules_table.rule_or_coperm,
+             ax(['Table.sort_order', 'Table.sort', 'Table.align_to',
+                 'Table.transpose', 'Table.update_ids', 'Table.copy']),
+             partial(rules_axis.rule_ax_fwd, which={'Table.sort'}),
+             rules_table.rule_or_reindex, rules_effects.rule_ef_fresh],
+      minima={'OR-COPERM': 12, 'AX-CTOR': 12, 'AX-SHAPE': 1, 'AX-STORE': 1, 'AX-IDAPI': 1, 'AX-OWNER': 1, 'AX-MATOP': 1, 'AX-FWD': 1, 'OR-REINDEX': 6, 'EF-FRESH': 20},
+      rule_texts=ALL_TEXT, trusted=[SCIPY_TRUST],
+      assumptions=['natsort order, scipy fancy indexing and injectivity of '
+                   'user renamings are not decided'])
+
+_prop('C08',
+      rules=[ax(['Table.filter', 'Table.head', 'Table.remove_empty']),
+             rules_table.rule_filter_kernel, rules_table.rule_or_sorted,
+             partial(rules_table.rule_sb_empty, which={'remove_empty'}),
+             partial(rules_axis.rule_cli_fwd, which={'head'}),
+             partial(rules_effects.rule_ef_bind,
+                     only={'filter', 'remove_empty'})],
+      minima={'AX-IDAPI': 3, 'AX-KERNEL': 1, 'AX-STORE': 3, 'OR-REINDEX': 1, 'SB-FILTERPATHS': 4, 'OR-VALIDATE-FIRST': 1, 'SB-PREDICATE': 1, 'SB-MASK': 1, 'OR-SORTED': 1, 'SB-EMPTY': 1, 'AX-FWD': 2, 'EF-BIND': 9, 'EF-KROOT': 1},
+      rule_texts=ALL_TEXT, trusted=[SCIPY_TRUST],
+      assumptions=['compaction arithmetic of _remove_rows_csr is not '
+                   'decided'])
+
+_prop('C09',
+      rules=[rules_table.rule_merge,
+             ax(['Table.merge', 'Table._fast_merge'])],
+      minima={'OR-GUARD': 1, 'AG-MERGEKIND': 8, 'OR-CANON': 1, 'AX-MATOP': 1, 'AX-IDAPI': 17, 'AX-SHAPE': 1, 'AX-CTOR': 4, 'AX-OWNER': 6},
+      rule_texts=ALL_TEXT, trusted=[SCIPY_TRUST, 'COO->CSR sums duplicates'],
+      assumptions=['arithmetic totals are not decided'])
+
+_prop('C10',
+      rules=[rules_table.rule_concat, ax(['Table.concat'])],
+      minima={'OR-DISJOINT': 2, 'OR-ALIGN': 2, 'SB-WRAP': 1, 'AX-IDAPI': 1, 'AX-SHAPE': 1, 'AX-CTOR': 12, 'AX-MATOP': 3},
+      rule_texts=ALL_TEXT, trusted=[SCIPY_TRUST],
+      assumptions=['zero padding values and totals are not decided'])
+
+_prop('C11',
+      rules=[ax(['Table.partition', 'Table.collapse']),
+             partial(rules_effects.rule_ef_new,
+                     only={'partition', 'collapse'}),
+             rules_table.rule_or_errcheck],
+      minima={'AX-CTOR': 8, 'AX-MATOP': 1, 'EF-NEW': 1, 'OR-ERRCHECK': 8},
+      rule_texts=ALL_TEXT, trusted=[SCIPY_TRUST],
+      assumptions=['group membership, sums and division are runtime '
+                   'arithmetic, not decided'])
+
+_prop('C12',
+      rules=[ax(['Table.subsample']), rules_table.rule_subsample_kernels,
+             partial(rules_table.rule_sb_empty, which={'subsample'}),
+             partial(rules_effects.rule_ef_new, only={'subsample'}),
+             rules_effects.rule_ef_nomut,
+             partial(rules_axis.rule_ax_fwd, which={'generate_subsamples'})],
+      minima={'AX-KERNEL': 1, 'SB-KGUARD': 1, 'TA-RNG': 4, 'SB-KDISPATCH': 1, 'AX-IDAPI': 1, 'SB-EMPTY': 1, 'EF-NEW': 1, 'EF-KROOT': 1, 'EF-NOMUT': 1, 'AX-FWD': 2},
+      rule_texts=ALL_TEXT, trusted=[SCIPY_TRUST,
+                                    'numpy Generator API'],
+      assumptions=['the sampling walk, exact sums and unbiasedness are '
+                   'not decided'])
+
+_prop('C13',
+      rules=[ax(['Table.transform']), rules_table.rule_sb_slice,
+             partial(rules_effects.rule_ef_bind,
+                     only={'transform', 'norm', 'pa', 'rankdata'}),
+             partial(rules_axis.rule_ax_fwd,
+                     which={'Table.norm', 'Table.rankdata', 'Table.pa'}),
+             partial(rules_axis.rule_cli_fwd, which={'normalize'}),
+             partial(rules_table.rule_sb_empty, which={'pa'}),
+             rules_canon.rule_invariant_g,
+             rules_canon.rule_or_canon_consumers],
+      minima={'AX-KERNEL': 1, 'SB-SLICE': 2, 'OR-CANON': 16, 'EF-BIND': 7, 'EF-KROOT': 1, 'AX-FWD': 5, 'SB-EMPTY': 1, 'EF-FRESH': 1},
+      rule_texts=ALL_TEXT, trusted=[SCIPY_TRUST],
+      assumptions=['numeric results of norm / rankdata are not decided'])
+
+_prop('C17',
+      rules=[rules_table.rule_to_sparse, rules_canon.rule_invariant_g,
+             rules_table.rule_or_errcheck, rules_err.rule_ag_errkinds,
+             rules_table.rule_or_bypass, rules_table.rule_importers,
+             ax(['Table.__init__', 'Table._index_ids', 'Table.from_json',
+                 'Table.from_tsv', 'Table.from_adjacency', 'parse_uc'])],
+      minima={'AG-INPUTS': 16, 'SB-CONVERT': 5, 'AX-SHAPE': 16, 'OR-CANON': 8, 'EF-FRESH': 1, 'OR-ERRCHECK': 8, 'AG-ERRKINDS': 17, 'OR-BYPASS': 1, 'AX-COORD': 3, 'AX-CTOR': 3, 'AX-STORE': 12, 'OR-REINDEX': 1},
+      rule_texts=ALL_TEXT, trusted=[SCIPY_TRUST],
+      assumptions=['equality of produced values across input forms and '
+                   'shape inference heuristics are not decided'])
+
+_prop('C18',
+      rules=[rules_effects.rule_ef_meta,
+             ax(['Table.add_metadata', 'Table.del_metadata']),
+             rules_table.rule_or_cast, rules_table.rule_metadata_updates,
+             partial(rules_axis.rule_cli_fwd, which={'add-metadata'})],
+      minima={'EF-META': 9, 'AX-STORE': 6, 'AX-OWNER': 1, 'OR-CAST': 2, 'OR-METAUPD': 4, 'AX-FWD': 3},
+      rule_texts=ALL_TEXT, trusted=['dict.update overwrite semantics'],
+      assumptions=['the mapping-file row grammar (MetadataMap.from_file) is '
+                   'runtime text processing, not decided'])
+
+_prop('C19',
+      rules=[rules_axis.rule_axis_primitives,
+             ax(['Table.sum', 'Table.min', 'Table.max',
+                 'Table.nonzero_counts', 'Table.reduce',
+                 'Table.to_dataframe', 'Table.metadata_to_dataframe',
+                 'Table.get_table_density', 'Table.nonzero']),
+             rules_table.rule_density,
+             partial(rules_axis.rule_cli_fwd,
+                     which={'ids', 'head', 'export'}),
+             partial(rules_table.rule_sb_empty, which={'stats'}),
+             rules_canon.rule_invariant_g,
+             rules_canon.rule_or_canon_consumers],
+      minima={'AX-PRIM': 1, 'AX-RET': 14, 'AX-SHAPE': 3, 'AX-CTOR': 2, 'OR-CANON': 16, 'AX-FWD': 5, 'SB-EMPTY': 1, 'EF-FRESH': 1},
+      rule_texts=ALL_TEXT, trusted=[SCIPY_TRUST, 'pandas DataFrame '
+                                    'index/columns label rows/columns'],
+      assumptions=['formatted figures of summarize-table, medians and means '
+                   'are not decided'])
+
+# axis sinks of the readers are part of the round-trip properties
+PROPS['C01']['rules'].append(ax(['Table.from_hdf5']))
+PROPS['C02']['rules'].append(ax(['Table.from_json']))
+PROPS['C01']['rule_texts'].update(rules_axis.RULE_TEXT)
+PROPS['C02']['rule_texts'].update(rules_axis.RULE_TEXT)
